@@ -311,8 +311,7 @@ def tlm_subcircuit(kind, slot, variant, rng):
 
 def compare_object(obj, label, fn_name, keyprefix, base_key):
     """numeric impedance of obj against obj.to_sympy(substitute=True) at the 7 frequencies.
-    returns (cases, fails{key: (fn, what, repro)}, worst, trivial-counts, outcome, culprit-frequency)"""
-    import sympy
+    returns (cases, fails{key: (fn, what, repro)}, worst, trivial-counts, outcome)"""
     F = [float(f) for f in freqs()]
     cases, fails, trivial, worst = [], {}, {}, 0.0
     src = py_src(obj)
